@@ -3,6 +3,21 @@ NOTES = ("All claims are level 'other': each check decides structural necessary 
          "Genuine defects found are repaired by 'fix:' commits in /repo or listed in /verif/known_findings.json.")
 PENDING = "static rules for this property are designed (DESIGN.md §3) but not yet implemented in this revision; not claimed until they are"
 CLAIMS = {
+ "C01": {
+  "text": "Exhaustive over a finite space: the flag decision table of the key-value FS's OpenFile — 48 flag values x 5 look-up situations = 240 cells; in each the single feasible path is followed (flag tests evaluated as constants of the loaded target, look-up tests from the situation) and the outcome (handle kind, create/truncate reached, or error sentinel) must equal the frozen os.OpenFile reference; plus permission masking: caller bits reaching a new record's mode are within ModePerm, Chmod within ModePerm|Setuid|Setgid|Sticky, directory records carry ModeDir. Equality of results/data/trees with os over operation histories is NOT decided.",
+  "note": "Trusted: go/types+go/ssa, the path evaluator, the reference table in c01.go. Fault-free evaluation (store writes succeed).",
+  "technique": "static analysis: constant evaluation of flag tests along enumerated CFG paths (exhaustive finite table), bit-level def-use of mode values",
+ },
+ "C02": {
+  "text": "Decides the handle mechanisms: read-only/write-only wrappers cannot reach content mutators/readers over the static call graph; every byte-I/O method that touches the content blob has an ErrIsDir directory guard dominating the blob access (one known finding); sizes compared with offset/size parameters are the length of the content loaded in the same call (live size); the first content mutation of write and truncate is dominated by the rejection of a negative offset/size. Transferred bytes, offsets, EOF exactness, zero fill and O_APPEND placement are NOT decided.",
+  "note": "Trusted: go/types+go/ssa and rule code; wrappers call the inner file statically.",
+  "technique": "static analysis: call-graph reachability, sibling guard comparison with error classes, dominator facts with difference constraints",
+ },
+ "C03": {
+  "text": "Decides the preconditions that keep the flat path->record map a tree on every path of the key-value FS: every create site is dominated by a successful look-up of path.Dir(p) and its IsDir()-true edge (or p is the root, or the ancestor-walk idiom); every delete/replace site is dominated by a not-the-root fact; Rename has a relational test of both names failing with *LinkError before any store; a directory is deleted only after its listing was found empty on that path. The invariant itself over reachable states, listing/Stat/Open agreement and termination are NOT decided.",
+  "note": "Trusted: go/types+go/ssa and rule code; A3 listing names are valid elements.",
+  "technique": "static analysis: dominator facts with look-up provenance (incl. parallel result slices), path enumeration for disjunctive obligations",
+ },
  "C10": {
   "text": "Thin: decides the ordering/provenance mechanisms of the read-only cache — source opened only on the ErrNotExist edge of the cache look-up of the same name; handle returned after a fill rewound successfully or re-opened from the cache; memoised FileInfo is the source handle's Stat() result stored on its success edge under the opened name; directory handle lists through the source and stats through the memoised Stat. Equality of names, kinds, sizes, modes and bytes with the source is NOT decided.",
   "note": "Trusted: go/types+go/ssa and rule code; A1 for source and cache file systems.",
